@@ -283,3 +283,6 @@ def run(ctx):
     ctx.require("ser_refused", 200)
     ctx.require("copy_chains_ok", 50)
     ctx.require("capacity_override_executions", 100)
+    # a code base that could not be built (or lost most of its vectors) is a monitor that did not run, not a property that held
+    ctx.require("executions[c_any]", 8000)
+    ctx.require("executions[cpp14]", 5000)
